@@ -1,5 +1,6 @@
 import EntraitProofs.C04
 import EntraitProofs.C10
+import EntraitProofs.C15
 /-
   C05 — concrete-dependency functions yield a leaf trait any application can adopt.
 
@@ -182,5 +183,55 @@ theorem T_C05_nested_no_mock (v : Variant) (t : TraitItem) (out : Out)
   have hu : (v.apply { unimock := some false, mockall := some false }).unimockValue = false := by cases v <;> rfl
   have hm : (v.apply { unimock := some false, mockall := some false }).mockallValue = false := by cases v <;> rfl
   simp [hu, hm, reappliedSubs]
+
+
+/-! ### the two stages composed, inside the model -/
+
+/-- a generated trait member read back as a trait member of the input syntax -/
+def memberAsInput : GenMember → TraitMember
+  | .fn as sig _ => .fn { attrs := as, sig := sig }
+  | .raw ts => .other ts
+
+/-- the leaf trait as the compiler hands it to the nested `#[::entrait::entrait(unimock = false, mockall = false)]`:
+    the nested attribute itself (and what stands above it) is consumed, the attributes below it stay -/
+def leafAsInput (g : GenTrait) (below : List Attr) : TraitItem :=
+  { attrs := below, vis := g.vis, ident := g.ident
+    generics := { params := g.params, preds := g.preds, wtrail := g.wtrail }
+    colon := g.colon, supertraits := g.supertraits, strail := g.strail
+    members := g.members.map memberAsInput }
+
+theorem noOther_members (fns : List TraitFn) (f : TraitFn → GenMember) (hf : ∀ tf, ∃ as sig b, f tf = .fn as sig b) :
+    ((fns.map f).map memberAsInput).any TraitMember.isOther = false := by
+  rw [List.any_eq_false]
+  intro m hm
+  simp only [List.mem_map] at hm
+  obtain ⟨g, ⟨tf, _, rfl⟩, rfl⟩ := hm
+  obtain ⟨as, sig, b, h⟩ := hf tf
+  rw [h]; simp [memberAsInput, TraitMember.isOther]
+
+/-- **C05 end to end**: for a concrete-dependency fn the model accepts, the generated leaf trait —
+    handed to the nested entrait invocation the first stage wrote on it — expands (under every macro
+    variant, i.e. with or without the `unimock` feature), derives no mock, and its `Impl<T>` impl
+    forwards every method to `T: Trait` (`P_C06`): any application can adopt the trait by implementing
+    it for its own type. -/
+theorem T_C05_two_stage (v v2 : Variant) (attr : Toks) (f : FnItem) (out : Out)
+    (h : expand v attr (.fn f) = .ok out) (g : GenTrait) (hg : mainTrait? out.view = some g) (below : List Attr) :
+    ∃ out2,
+      expand v2 [i "unimock", p '=', i "false", p ',', i "mockall", p '=', i "false"] (.trait (leafAsInput g below)) = .ok out2 ∧
+      P_C06 [i "unimock", p '=', i "false", p ',', i "mockall", p '=', i "false"] (.trait (leafAsInput g below)) out2.view = true ∧
+      ∀ g2 ∈ traitsOf out2.view.items, mockKinds g2 = below.filterMap Attr.mockKind := by
+  obtain ⟨a, tf, tg, depMode, implBlock, h1, h2, h3, h4, rfl⟩ := expandFn_ok h
+  simp only [Out.view, View.items, Out.inside, Out.after, List.nil_append, mainTrait?, traitsOf,
+    List.head?_cons, Option.some.injEq] at hg
+  subst hg
+  have hmis : specMisuses [i "unimock", p '=', i "false", p ',', i "mockall", p '=', i "false"]
+      (.trait (leafAsInput (genTraitDef (v.apply a.opts) .plain depMode f.attrs a.traitVis a.traitIdent tg {} [tf] .singleFn) below)) = some [] := by
+    have hno : (leafAsInput (genTraitDef (v.apply a.opts) .plain depMode f.attrs a.traitVis a.traitIdent tg {} [tf] .singleFn) below).members.any
+        TraitMember.isOther = false :=
+      noOther_members [tf] (fun tf => GenMember.fn tf.attrs (makeTraitFnSig tf.sig f.attrs (v.apply a.opts)) none)
+        (fun tf => ⟨_, _, _, rfl⟩)
+    simp only [specMisuses, nestedAttr_parse, delegationMisuses, hno, Bool.false_eq_true, if_false, List.append_nil]
+  obtain ⟨out2, hout2⟩ := C15.T_C15_accepts v2 _ _ hmis
+  exact ⟨out2, hout2, C06.T_C06 v2 _ _ out2 hout2, T_C05_nested_no_mock v2 _ out2 hout2⟩
 
 end Entrait.C05
